@@ -131,8 +131,9 @@ def C01(tier):
                             "{SinkColoring,VAlign,PackRight}, polyline; %s; every explicit panic, run-time panic site and loop/recursion budget is a query" % (N, M, SYMB)),
            layout_ob("layout-returns-routers", "Harness_E_C01", sh, {"P5": [0, 1, 3], "P1": [0, 1]},
                      consts={"P2": 0, "P4": 4, "SZ": 2}, bounds="same shapes x {no routing, straight, ortho} x {greedy,dfs}, SinkColoring"),
-           layout_ob("layout-returns-greedy-random", "Harness_E_C01", sh, {"P2": [0, 1]},
-                     consts={"P1": 2, "P4": 4, "P5": 2, "SZ": 0}, bounds="same shapes x greedy with RNG picks chosen by the solver (rand.Intn = arbitrary value in range)"),
+           layout_ob("layout-returns-greedy-random", "Harness_E_C01", shapes(3, 3) if q else shapes(3, 3) + shapes(4, 4, selfloops=False, connected=True, acyclic=False)[::4], {"P2": [0, 1]},
+                     consts={"P1": 2, "P4": 4, "P5": 2, "SZ": 0}, enctimeout=60,
+                     bounds="%s x greedy with RNG picks chosen by the solver (rand.Intn = arbitrary value in range)" % nm(q, "N<=3 M<=3", "N<=3 M<=3 and every 4th cyclic connected list with N<=4 M<=4")),
            layout_ob("layout-returns-large", "Harness_E_C01", list(big_shapes().values()), {"P1": [0, 1], "P2": [0, 1]},
                      consts={"P4": 4, "P5": 2, "SZ": 0, "NSFIX": 10, "LSFIX": 20}, loop=8192, depth=300, enctimeout=120, hang_probe=True, hang_timeout=30, validate_cubes=2,
                      bounds="time/memory budget probe on 10 structured graphs with 21..145 nodes and up to 70 layers (%s) x {greedy,dfs} x {NS,LP}, default positioner and router, no sizes; "
